@@ -89,6 +89,7 @@ pub fn child_main(args: &[String]) -> i32 {
         Some("seeds") => c18::child(args),
         Some("tz") => c09::child(args),
         Some("follow") => c10::child(args),
+        Some("stmt") => crate::sut::child_stmt(args),
         _ => 2,
     }
 }
